@@ -1,4 +1,5 @@
 CONSTANTS
+  Idents = {"Target", "Protocol"}
   SvNames = {"Sv", "OK", "Rate_Limited", "lowerCase"}
   Modes = {"single", "folder"}
   Elsewheres = {"none", "same_ident_renamed", "same_ident_plain"}
